@@ -23,7 +23,7 @@ import (
 func init() {
 	Registry["C08"] = RunC08
 	Metas["C08"] = Meta{
-		Rule: "episode = one app.FS handler (AcceptByteRange on/off, IndexNames, GenerateIndexPages, strip-prefix rewrite, CacheDuration 20ms..1s; in a third of the episodes a private writable tree with Compress on/off) plus a ctx.File route over a directory tree with files of length 0,1,2,10,4095,4096,4097,8191,8192,8193,24576 (small/big-file threshold), a directory whose generated listing exceeds the small-file threshold, and bait files outside the root; 2..5 simulated connections, each 1..4 GET/HEAD requests with Range from the whole syntactic family (a-b, a-, -n, -0, empty, reversed, beyond EOF, overflowing, non-numeric, multi-range), If-Modified-Since, Accept-Encoding: gzip, traversal attempts, directory requests; the scheduler interleaves all connections on the shared file caches, stalls a reader of a streamed big-file response for longer than CacheDuration (the cleaner runs while the reader is open), lets the fake clock cross the cache deadline between requests, requests the same big file concurrently with different ranges, resets a client mid-body, and (disk fault) replaces files under the running server with new content and a newer or older modification time; after the last replacement plus 2 x CacheDuration every connection sends one more request that must see exactly the final file. Oracle: RFC 7233 single-range model over the known file bytes (after gunzip when the response is gzip-coded, which is only allowed when asked for, with Compress, on a whole-file answer), Last-Modified of the final version, generated listings name every entry. Non-trivial: >= 2 connections with overlapping requests or a stall/reset fired; distinct = abstract signature (file class, range class, method, config, fault).",
+		Rule: "episode = one app.FS handler (AcceptByteRange on/off, IndexNames, GenerateIndexPages, strip-prefix rewrite, CacheDuration 20ms..1s; in a third of the episodes a private writable tree with Compress on/off) plus a ctx.File route over a directory tree with files of length 0,1,2,10,4095,4096,4097,8191,8192,8193,24576 (small/big-file threshold), a directory whose generated listing exceeds the small-file threshold, and bait files outside the root; 2..5 simulated connections, each 1..4 GET/HEAD requests with Range from the whole syntactic family (a-b, a-, -n, -0, empty, reversed, beyond EOF, overflowing, non-numeric, multi-range), If-Modified-Since, Accept-Encoding: gzip, traversal attempts, directory requests; the scheduler interleaves all connections on the shared file caches, stalls a reader of a streamed big-file response for longer than CacheDuration (the cleaner runs while the reader is open), lets the fake clock cross the cache deadline between requests, requests the same big file concurrently with different ranges, resets a client mid-body, and (disk fault) replaces files under the running server with new content and a newer or older modification time; after the last replacement plus 2 x CacheDuration every connection sends one more request that must see exactly the final file. Oracle: RFC 7233 single-range model over the known file bytes (after gunzip when the response is gzip-coded, which is only allowed when asked for, with Compress, on a whole-file answer), Last-Modified of the final version, generated listings name every entry. Non-trivial: >= 2 connections with overlapping requests or a stall/reset fired; distinct = abstract signature (file class, range class, method, config, fault). Later still: files removed while the compressed sibling hertz wrote stays behind, HEAD against GET (same coding and length with Compress), and - one episode in four - a scheduling point in front of every statement of fs.go (inserted yields, lock statements as try-lock loops; DESIGN 8).",
 		Real: []string{"app.FS / fsHandler.handleRequest, openFSFile, compressAndOpenFSFile (.hertz.gz siblings), createDirIndex, both caches + cleaner goroutine, fsSmallFileReader, bigFileReader (reader reuse), ParseByteRange, ServeFile", "ResponseHeader.SetContentRange", "http1.Server.Serve, resp.Write/writeBodyStream", "standard.Conn", "operating-system files (real directory trees, modification times set explicitly)"},
 		Stub: []string{"TCP (SimConn)", "peers (scripted actors)", "transporter accept loop (stub)", "clock (synctest) - file mtimes are set explicitly", "stackless worker pool (hook H4: the gzip writer's function runs on the calling goroutine)"},
 		Assumptions: []string{
